@@ -2,7 +2,8 @@
 // session harness. One Session per process; one torrent per distinct layout (cached); one fresh
 // scripted peer connection per case.
 //
-// Case:  plen=<n> total=<n> done=<01..> seed=<n> files=<a,b,c> [enc=1] | op ...
+// Case:  plen=<n> total=<n> done=<01..> seed=<n> files=<a,b,c> [enc=1] [off=<file indices>] | op ...
+//   off=1,2: those files are set to PRIORITY_OFF + update_priorities() before the torrent starts (partial seeding)
 //   enc=1: the scripted peer negotiates MSE with an RC4 stream first (harness/common/mseinit.h); what
 //   is compared is the stream after the peer's own, independent RC4 decryption.
 //   R:i:b:l / C:i:b:l  the peer sends REQUEST / CANCEL (batched until the next W)
@@ -40,6 +41,8 @@
 #include "protocol/peer_connection_base.h"
 #include "net/throttle_list.h"
 #include "net/throttle_node.h"
+#include "torrent/data/file.h"
+#include "torrent/data/file_list.h"
 #include "torrent/exceptions.h"
 #include "torrent/throttle.h"
 #include "torrent/torrent.h"
@@ -50,7 +53,8 @@ static std::map<std::string, Torrent*> g_torrents;
 static uint32_t g_case_no = 0;
 
 static Torrent* get_torrent(Session& S, const std::string& key, uint32_t plen, uint64_t total,
-                            const std::string& done, uint32_t seed, const std::string& files, bool iseed) {
+                            const std::string& done, uint32_t seed, const std::string& files, bool iseed,
+                            const std::string& off) {
   auto it = g_torrents.find(key);
   if (it != g_torrents.end()) return it->second;
   TorrentSpec spec;
@@ -73,10 +77,29 @@ static Torrent* get_torrent(Session& S, const std::string& key, uint32_t plen, u
     p = q + 1;
   }
   if (sum != total) throw std::runtime_error("files do not sum to total");
+  // pieces that must not verify hold junk on disk: no byte of them equals the content
   for (size_t i = 0; i < done.size(); i++)
-    if (done[i] != '1') spec.corrupt_pieces.push_back((uint32_t)i);
+    if (done[i] != '1') spec.junk_pieces.push_back((uint32_t)i);
   Torrent* T = S.add_torrent(spec);
   if (T->completed_bits() != done) throw std::runtime_error("hash check gave " + T->completed_bits() + " wanted " + done);
+  // off=<i,j,..>: these files get PRIORITY_OFF and Download::update_priorities() is called (partial seeding:
+  // with every incomplete piece inside such files nothing is wanted any more although pieces are missing)
+  if (!off.empty() && off != "-") {
+    size_t p0 = 0;
+    size_t idx = 0;
+    std::vector<size_t> offs;
+    while (p0 <= off.size()) {
+      size_t q0 = off.find(',', p0);
+      offs.push_back(std::stoul(off.substr(p0, q0 == std::string::npos ? std::string::npos : q0 - p0)));
+      if (q0 == std::string::npos) break;
+      p0 = q0 + 1;
+    }
+    for (auto& f : *T->dl.file_list()) {   // elements are (smart) pointers to File
+      for (size_t o : offs) if (o == idx) f->set_priority(torrent::PRIORITY_OFF);
+      idx++;
+    }
+    T->dl.update_priorities();
+  }
   if (iseed) S.set_conn_type(T, (int)torrent::Download::CONNECTION_INITIAL_SEED);   // needs a complete torrent
   S.start(T);
   if (iseed && T->main()->initial_seeding() == nullptr) throw std::runtime_error("initial seeding did not start");
@@ -207,8 +230,9 @@ static std::string run_case(Session& S, const std::string& line) {
   // src/protocol/initial_seed.cc): the library offers pieces with HAVE, may drop queued requests
   // (should_upload) and choke on its own. Not modelled: such cases are judged by the property oracle only.
   bool iseed = kv.count("role") && kv["role"] == "iseed";
-  std::string key = kv["plen"] + "/" + kv["total"] + "/" + kv["done"] + "/" + kv["seed"] + "/" + kv["files"] + (iseed ? "/iseed" : "");
-  Torrent* T = get_torrent(S, key, plen, total, kv["done"], seed, kv["files"], iseed);
+  std::string off = kv.count("off") ? kv["off"] : std::string();
+  std::string key = kv["plen"] + "/" + kv["total"] + "/" + kv["done"] + "/" + kv["seed"] + "/" + kv["files"] + (iseed ? "/iseed" : "") + "/off" + off;
+  Torrent* T = get_torrent(S, key, plen, total, kv["done"], seed, kv["files"], iseed, off);
 
   // no Manager tick inside a case: each later D:0 needs 11 s of virtual time
   int unchokes = 0;
